@@ -33,6 +33,11 @@ def expected_sizes(M, L, vals, size):
                 ev["extra"] = gv.get("extra", 0)   # entries share the group's wire blockLength
                 out.append("e=%d" % M.level_size(g, ev))
                 level(g, e)
+            if not g.groups and not g.data:
+                esz = g.block_length + gv.get("extra", 0)
+                out += ["ei=%d" % esz] * len(gv["entries"])
+                if gv["entries"]:
+                    out += ["ef=%d" % esz, "eb=%d" % esz]
         for d in Lv.data:
             out.append("d:%s=%d" % (d.name, d.header_size + len(v["data"][d.name])))
     level(L, vals)
